@@ -159,6 +159,7 @@ pub fn check(c: &Case) -> CheckResult {
     o.class_if(region > 0 && ((x2 as i64 - x1 as i64) > i32::MAX as i64 / 2 || (y2 as i64 - y1 as i64) > i32::MAX as i64 / 2), "transfer-through-a-rect-spanning-billions");
     o.class_if(c.kind == 2, "blend_surface_with_alpha");
     o.class_if(c.xf.is_some() || c.clip.is_some() || c.layer, "state-to-ignore-set");
+    o.class_if(c.xf.map_or(false, |x| xf_det(&x) == 0.0) && region > 0, "transfer-under-a-singular-transform");
     o.class_if(c.src_clip.is_some(), "clip-and-transform-set-on-the-source");
     let _ = moved;
     Ok(o)
@@ -266,7 +267,7 @@ pub fn strategy() -> BoxedStrategy<Case> {
                 0u8..3,
                 blend_any(),
                 prop_oneof![Just(1.0f32), Just(0.0f32), 0.0f32..=1.0],
-                prop::option::weighted(0.3, xf_invertible(5.0)),
+                prop::option::weighted(0.3, prop_oneof![3 => xf_invertible(5.0), 1 => xf_singular()]),
                 // the clip rect (to be ignored) stays near the surface: a layer is pushed under it, and layer
                 // allocation under far-away clip rects is C06/C07's subject, not this property's
                 prop::option::weighted(0.3, (-3..=m + 3, -3..=m + 3, -3..=m + 3, -3..=m + 3)),
